@@ -30,9 +30,12 @@ class CallMixin:
         args = []
         for a in n.args:
             if isinstance(a, ast.Starred):
-                items = self.concrete_items(self.eval(a.value, frame))
+                sv = self.eval(a.value, frame)
+                items = self.concrete_items(sv)
                 if items is None:
-                    raise Unsupported(f"*args with symbolic sequence line {n.lineno}")
+                    # a symbolic sequence spread into the call: only callees that model it accept it
+                    args.append(py(("starred", sv), "starred"))
+                    continue
                 args.extend(items)
             else:
                 args.append(self.eval(a, frame))
